@@ -463,6 +463,7 @@ def write_evidence(prop, tier, seed, mod, results, reported, known_lines, harnes
             "target_runs": target,
             "plans_executed": len(results),
             "runs_per_hour": round(n / wall * 3600) if wall > 0 else 0,
+            "seeds_per_hour": round(n / wall * 3600) if wall > 0 else 0,  # one derived seed per run
             "simulated_seconds": round(virt, 1),
             "fault_kinds_fired": faults,
             "probes": probes,
